@@ -278,6 +278,45 @@ def check_resolver_shape(res: Result, repo, prop="C20"):
 from ..framework_rules import check_active_cursor, check_name_sanitised
 
 
+def check_presence(res, repo):
+    """R-TRUTH: Indicator.has_reading / Hexital.has_reading / Indicator.prev_exists, evaluated (convsem) with the reading they look up
+    replaced by each of: None, a number, 0.0, False, {}, a dict whose fields are all None -- answer True exactly when it is not None
+    (and False on an empty candle list)"""
+    from .. import convsem as cs
+
+    VALUES = [("None", None, False), ("a number", 1.5, True), ("0.0", 0.0, True), ("False", False, True), ("an empty dict", {}, True), ("a dict whose fields are all None (warm-up of a multi-line indicator)", {"a": None, "b": None}, True)]
+    for mod, cls, nm, looked_up in (("hexital.core.indicator", "Indicator", "has_reading", ("reading",)), ("hexital.core.hexital", "Hexital", "has_reading", ("reading",)), ("hexital.core.indicator", "Indicator", "prev_exists", ("prev_reading", "reading"))):
+        m = repo.method(mod, cls, nm)
+        bad = None
+        for label, val, want in VALUES:
+            it = cs.Interp(repo, mod, cls)
+            attrs = {"candles": [cs.Sym("candle 0", "Candle"), cs.Sym("candle 1", "Candle")], "_active_index": 1, "name": "IND", "_candles": {}, "_indicators": {}}
+            for lu in looked_up:
+                attrs[lu] = (lambda a, k, v=val: v)
+            it.intercept["reading_by_index"] = lambda a, k, v=val: v
+            it.intercept["reading_by_candle"] = lambda a, k, v=val: v
+            selfo = cs.ObjV("self", attrs, cls)
+            fn = it.method(nm)
+            n_required = len(fn.args.args) - 1 - len(fn.args.defaults)
+            args = ["IND" if p_.arg == "name" else None for p_ in fn.args.args[1:1 + n_required]]
+            try:
+                got = it.call_function(fn, args, {}, bound_first=selfo)
+            except cs.Undecided as ex:
+                res.errors.append(f"{m.where} R-TRUTH {cls}.{nm}: cannot evaluate the presence test ({ex}); the rule cannot decide it")
+                bad = "undecided"
+                break
+            except cs.Raised as ex:
+                bad = f"raises {ex.what} when the reading is {label}"
+                break
+            if got is not want:
+                bad = f"answers {got!r} when the reading is {label}"
+                break
+        if bad is None:
+            res.ok("R-TRUTH", {"function": f"{cls}.{nm}", "presence": "True exactly when the reading is not None (6 reading values evaluated)"}, nontrivial=f"{cls}.{nm}:presence")
+        elif bad != "undecided":
+            res.fail("R-TRUTH", finding("C20", "R-TRUTH", m, m.node, f"{cls}.{nm} {bad}: presence of a reading must mean `is not None` everywhere, or the ways of asking disagree", construct=f"{cls}.{nm}: presence test"))
+
+
 def check_reading_search(res, repo, hr):
     """R-SEARCH: Hexital.reading, evaluated over a Hexital with three candle managers (default first) and every combination of
     `this manager's candles hold / do not hold the reading`, returns the first reading that is not None, asked with the caller's
@@ -289,9 +328,10 @@ def check_reading_search(res, repo, hr):
     bad = None
     n_ok = 0
     VALUES = {"readings that are plain numbers": (1.5, 2.5, 3.5), "readings that are falsy but present (0.0, False, {})": (0.0, False, {})}
-    for (vlabel, vals), registered, combo in itertools.product(VALUES.items(), (False, True), itertools.product((0, 1), repeat=3)):
+    for (vlabel, vals), registered, combo, ix_ in itertools.product(VALUES.items(), (False, True), itertools.product((0, 1), repeat=3), (-1, 3, -4)):
         it = cs.Interp(repo, "hexital.core.hexital", "Hexital")
-        lists = [cs.Sym(f"candles of manager {i}", "list") for i in range(3)]
+        # the default manager is the shortest list (a strategy timeframe coarser than a member's, or gap filling on the members')
+        lists = [[cs.Sym(f"candle {j} of manager {i}", "Candle") for j in range(n_)] for i, n_ in enumerate((2, 4, 4))]
         mgrs = [cs.ObjV(f"manager {i}", {"candles": lists[i]}, "CandleManager") for i in range(3)]
         try:
             default = it.module_const("DEFAULT_CANDLES")
@@ -300,8 +340,9 @@ def check_reading_search(res, repo, hr):
         if default is cs._MISSING:
             res.errors.append(f"{hr.where} R-SEARCH: DEFAULT_CANDLES cannot be resolved from hexital.core.hexital")
             return
-        readings = [vals[i] if c else None for i, c in enumerate(combo)]
-        nm, ix = "IND_1.sub", cs.Sym("index", "int")
+        nm, ix = "IND_1.sub", ix_
+        # a reading exists on a manager only where the asked position exists on that manager's list
+        readings = [vals[i] if c and -len(lists[i]) <= ix < len(lists[i]) else None for i, c in enumerate(combo)]
         # a registered indicator carries the timeframe its manager gave it; with a strategy timeframe that is also the key of another manager
         ind = cs.ObjV("indicator IND_1", {"timeframe": "T5", "name": "IND_1"}, "Indicator")
         selfo = cs.ObjV("self", {"_candles": {default: mgrs[0], "T5": mgrs[1], "H1": mgrs[2]}, "_indicators": {"IND_1": ind} if registered else {}, "timeframe": "T5"}, "Hexital")
@@ -314,13 +355,24 @@ def check_reading_search(res, repo, hr):
                     a.append(kw[k])
             if not a or not any(a[0] is L for L in lists):
                 raise cs.Undecided("reading_by_index on something that is not a manager's candle list")
-            if len(a) < 3 or a[1] != nm or a[2] is not ix:
+            if len(a) < 3 or a[1] != nm or a[2] != ix or isinstance(a[2], bool):
                 wrong_args.append(a[1:])
             return readings[[i for i, L in enumerate(lists) if a[0] is L][0]]
 
+        def rbc(args, kw, lists=lists, readings=readings, nm=nm, ix=ix, wrong_args=wrong_args):
+            a = list(args) + [kw[k] for k in ("candle", "name") if k in kw]
+            where = [(i, j) for i, L in enumerate(lists) for j, c_ in enumerate(L) if a and a[0] is c_]
+            if not where:
+                raise cs.Undecided("reading_by_candle on something that is not a candle of a manager")
+            i, j = where[0]
+            if len(a) < 2 or a[1] != nm:
+                wrong_args.append(a[1:])
+            return readings[i] if j == (ix if ix >= 0 else len(lists[i]) + ix) else None
+
         it.intercept["reading_by_index"] = rbi
+        it.intercept["reading_by_candle"] = rbc
         want = next((r for r in readings if r is not None), None)
-        label = f"{vlabel}, present on managers " + (", ".join(str(i) for i, c in enumerate(combo) if c) or "none") + (", name registered as an indicator" if registered else "")
+        label = f"{vlabel}, index {ix}, present on managers " + (", ".join(str(i) for i, c in enumerate(combo) if c) or "none") + " (list lengths 2 / 4 / 4)" + (", name registered as an indicator" if registered else "")
         try:
             got = it.call_function(it.method("reading"), [nm, ix], {}, bound_first=selfo)
         except cs.Undecided as ex:
@@ -394,15 +446,8 @@ def run(repo, tier) -> Result:
             res.ok("R-TRUTH", {"function": f.qualname, "why": "no looked-up reading in boolean context"}, nontrivial=f.qualname)
         for s in sites:
             res.fail("R-TRUTH", finding("C20", "R-TRUTH", f, s, "a looked-up reading is tested by truthiness / `or`: a reading of 0 or False counts as absent"))
-    # presence tests that must be `is (not) None`
-    for mod, cls, nm in (("hexital.core.indicator", "Indicator", "has_reading"), ("hexital.core.hexital", "Hexital", "has_reading"), ("hexital.core.indicator", "Indicator", "prev_exists")):
-        m = repo.method(mod, cls, nm)
-        cmp = [n for n in ast.walk(m.node) if isinstance(n, ast.Compare) and isinstance(n.ops[0], (ast.Is, ast.IsNot)) and isinstance(n.comparators[0], ast.Constant) and n.comparators[0].value is None]
-        rets = [n for n in ast.walk(m.node) if isinstance(n, ast.Return) and n.value is not None and not isinstance(n.value, ast.Constant)]
-        if rets and all(any(c in list(ast.walk(r)) for c in cmp) for r in rets):
-            res.ok("R-TRUTH", {"function": f"{cls}.{nm}", "presence": "is not None"}, nontrivial=f"{cls}.{nm}:presence")
-        else:
-            res.fail("R-TRUTH", finding("C20", "R-TRUTH", m, m.node, "presence of the latest reading must be decided with `is not None`", construct=f"{cls}.{nm}: presence test"))
+    # presence: true exactly when the reading asked for is not None (evaluated over reading values incl. 0, False, {}, a dict of Nones)
+    check_presence(res, repo)
     rc = repo.func("hexital.utils.candles", "reading_count")
     tests = [n for n in ast.walk(rc.node) if isinstance(n, ast.Compare) and isinstance(n.ops[0], ast.Is)]
     revs = [c for c in calls_in(rc.node) if call_name(c) == "reversed"]
